@@ -48,21 +48,46 @@ def plan(tier, seed):
         P.append((T(name="t2x21n", progs=[[1, 2], [3]], nest={1: [7]}, nest_at={1: at()}, gran="engine"), 2, 0.15, 0, True))
         P.append((T(name="t2x2", progs=[[1, 2], [3, 4]], nest={3: [8]}, nest_at={3: at()}, gran="engine"), 2, 0.22, 300, False))
         P.append((T(name="t3x1", progs=[[1], [2], [3]], nest={}, nest_at={}, gran="engine"), 1, 0.10, 300, True))
-        P.append((A(name="a2", progs=[[1, 2], [3]], nest={}, nest_at={}, yields={"on": 1, "after": 1}, split=[3]), 99, 0.08, 0, True))
-        P.append((A(name="a3n", progs=[[1], [2], [3]], nest={1: [7]}, nest_at={1: at()}, yields={**y(1), "on": 1}, split=[2]), 5, 0.14, 0, True))
-        P.append((A(name="a4", progs=[[1, 2], [3], [4, 5], [6]], nest={3: [8]}, nest_at={3: at()}, yields=y(2), split=[4, 6]), 2, 0.08, 200, False))
+        P.append((A(name="a2", progs=[[1, 2], [3]], nest={}, nest_at={}, yields={"on": 1, "after": 1}, split=[3], gaps=[0, 1]), 6, 0.08, 0, True))
+        P.append((A(name="a3n", progs=[[1], [2], [3]], nest={1: [7]}, nest_at={1: at()}, yields={**y(1), "on": 1}, split=[2], gaps=[0, 1, 2]), 5, 0.14, 0, True))
+        P.append((A(name="a4", progs=[[1, 2], [3], [4, 5], [6]], nest={3: [8]}, nest_at={3: at()}, yields=y(2), split=[4, 6], gaps=[0, 1, 1, 2]), 2, 0.08, 200, False))
     else:
-        P.append((T(name="t2x1", progs=[[1], [2]], nest={}, nest_at={}, gran="full"), 3, 0.25, 0, True))
-        P.append((T(name="t2x2n", progs=[[1, 2], [3, 4]], nest={1: [7]}, nest_at={1: at()}, gran="full"), 2, 0.15, 0, True))
+        P.append((T(name="t2x1", progs=[[1], [2]], nest={}, nest_at={}, gran="full"), 2, 0.03, 0, True))
+        P.append((T(name="t2x1e3", progs=[[1], [2]], nest={}, nest_at={}, gran="engine"), 3, 0.10, 0, True))
+        P.append((T(name="t2x1f3", progs=[[1], [2]], nest={}, nest_at={}, gran="full"), 3, 0.10, 0, True))
+        P.append((T(name="t2x2n", progs=[[1, 2], [3, 4]], nest={1: [7]}, nest_at={1: at()}, gran="full"), 2, 0.10, 0, True))
         P.append((T(name="t2x2e", progs=[[1, 2], [3, 4]], nest={3: [8]}, nest_at={3: at()}, gran="engine"), 3, 0.08, 0, True))
         P.append((T(name="t3x1n", progs=[[1], [2], [3]], nest={2: [7, 8]}, nest_at={2: at()}, gran="engine"), 2, 0.10, 2000, True))
         P.append((T(name="t3x2", progs=[[1, 2], [3, 4], [5]], nest={3: [8]}, nest_at={3: at()}, gran="engine"), 2, 0.08, 3000, False))
         P.append((T(name="t4x1n", progs=[[1], [2], [3], [4]], nest={1: [7], 7: [8]}, nest_at={1: at(), 7: at()}, gran="engine"), 2, 0.08, 4000, False))
         P.append((T(name="t4x2", progs=[[1, 2], [3, 4], [5, 6], [7]], nest={}, nest_at={}, gran="engine"), 1, 0.04, 4000, False))
-        P.append((A(name="a2", progs=[[1, 2], [3, 4]], nest={1: [7]}, nest_at={1: at()}, yields=y(2), split=[3]), 99, 0.05, 0, True))
-        P.append((A(name="a3n", progs=[[1, 2], [3], [4]], nest={1: [7], 3: [8]}, nest_at={1: at(), 3: at()}, yields=y(2), split=[3]), 6, 0.06, 0, True))
-        P.append((A(name="a4", progs=[[1, 2], [3, 4], [5, 6], [7]], nest={3: [8]}, nest_at={3: at()}, yields=y(2), split=[5, 7]), 3, 0.06, 3000, False))
-        P.append((A(name="a4s", progs=[[1], [2], [3], [4]], nest={1: [7, 8]}, nest_at={1: at()}, yields=y(2), split=[2, 3, 4]), 5, 0.04, 2000, False))
+        P.append((A(name="a2", progs=[[1, 2], [3, 4]], nest={1: [7]}, nest_at={1: at()}, yields=y(2), split=[3], gaps=[0, 1]), 99, 0.03, 0, True))
+        P.append((A(name="a3n", progs=[[1, 2], [3], [4]], nest={1: [7], 3: [8]}, nest_at={1: at(), 3: at()}, yields={**y(2), "on": 2}, split=[3], gaps=[0, 1, 2]), 6, 0.04, 0, True))
+        P.append((A(name="a4", progs=[[1, 2], [3, 4], [5, 6], [7]], nest={3: [8]}, nest_at={3: at()}, yields={**y(2), "after": 1}, split=[5, 7], gaps=[1, 0, 2, 1]), 3, 0.04, 3000, False))
+        P.append((A(name="a4s", progs=[[1], [2], [3], [4]], nest={1: [7, 8]}, nest_at={1: at()}, yields=y(2), split=[2, 3, 4], gaps=[0, 2, 1, 0]), 5, 0.03, 2000, False))
+    # seeded random families: 2-4 senders x 1-2 events, nested sends anywhere, yields 0-2, split sends
+    nA, nT = (6, 2) if tier == "quick" else (40, 12)
+    shareA, shareT = (0.012, 0.02) if tier == "quick" else (0.002, 0.004)
+    for j in range(nA + nT):
+        r = random.Random(f"{seed}:C06:family:{j}")
+        n = r.randint(2, 4)
+        uid = iter(range(1, 100))
+        progs = [[next(uid) for _ in range(r.randint(1, 2))] for _ in range(n)]
+        tops = [u for p in progs for u in p]
+        nest, nest_at = {}, {}
+        for _ in range(r.randint(0, 2)):
+            parent = r.choice(tops + [k for v in nest.values() for k in v])
+            if parent in nest:
+                continue
+            nest[parent] = [50 + next(uid) for _ in range(r.randint(1, 2))]
+            nest_at[parent] = r.choice(CB)
+        if j < nA:
+            sc = A(name=f"ra{j}", progs=progs, nest=nest, nest_at=nest_at, yields={c: r.randint(0, 2) for c in CB},
+                   split=[u for u in tops if r.random() < 0.4], gaps=[r.randint(0, 2) for _ in range(n)])
+            P.append((sc, 3, shareA, 60 if tier == "quick" else 300, False))
+        else:
+            sc = T(name=f"rt{j - nA}", progs=progs, nest=nest, nest_at=nest_at, gran="engine")
+            P.append((sc, 1, shareT, 100 if tier == "quick" else 600, False))
     return P
 
 
@@ -160,7 +185,7 @@ def _run(ctx, pool, procs):
         total.merge(acc)
     dist["corpus"] = len(corpus)
 
-    budget = min(ctx.left() - 10, 38) if ctx.tier == "quick" else ctx.left() - 40
+    budget = min(ctx.left() - 10, 38) if ctx.tier == "quick" else ctx.left() - 120
     t0 = time.time()
     plans = plan(ctx.tier, ctx.seed)
     model_sets = {}
@@ -229,12 +254,20 @@ def _run(ctx, pool, procs):
                                   theorems=["SMV.Protocol.step?_sound", "SMV.Protocol.reach_run"], labels=labels)))
         ctx.violation(rp, msg, no_input=True)
 
+    if ctx.tier == "thorough" and not any_spec:
+        from common import REPO
+        from sched_selftest import run_selftest
+        st = run_selftest(REPO, seconds=25.0)
+        ctx.coverage["harness_selftest"] = st
+        print(f"[C06] harness self-test: {st['caught']}/{st['expected']} seeded mutants caught"
+              + (f"; MISSED: {st['missed']}" if st["missed"] else ""))
     ctx.coverage.update(
         evaluations=total.runs,
         distinct_nontrivial=len(total.nontrivial),
         samples=total.samples[:6],
         distribution=dist,
         traces_validated_against_impl=total.label_seqs,
+        determinism_checks=total.determinism_checks,
         spec_failures=len(any_spec),
         correspondence_failures=len(any_map),
         model_outcomes_realised={k: f"{a}/{b}" for k, (a, b) in realised.items()},
